@@ -42,10 +42,28 @@ type config struct {
 	Universe int    `json:"universe"` // identifier universe (0: strings, 1: numbers, 2: tuples/sets)
 	Replicas int    `json:"replicas"`
 	Depth    int    `json:"depth"`
+	// focused families (all optional):
+	Ops     string `json:"ops,omitempty"`     // "big": gcounter increments {+1, +2^30, +MaxInt32}
+	Elems   int    `json:"elems,omitempty"`   // sets: number of elements in the alphabet (0 = 2)
+	Passive int    `json:"passive,omitempty"` // the last Passive replicas never update: they only hold snapshots that are delivered later (delayed / duplicated messages)
+	NoGob   bool   `json:"no_gob,omitempty"`  // no separate gob-merge transitions (the gob checks in every state stay)
 }
 
 func (c config) String() string {
-	return fmt.Sprintf("%s/u%d/r%d/d%d", c.Type, c.Universe, c.Replicas, c.Depth)
+	s := fmt.Sprintf("%s/u%d/r%d/d%d", c.Type, c.Universe, c.Replicas, c.Depth)
+	if c.Ops != "" {
+		s += "/ops=" + c.Ops
+	}
+	if c.Elems != 0 {
+		s += fmt.Sprintf("/elems=%d", c.Elems)
+	}
+	if c.Passive != 0 {
+		s += fmt.Sprintf("/passive=%d", c.Passive)
+	}
+	if c.NoGob {
+		s += "/nogob"
+	}
+	return s
 }
 
 type opDesc struct {
@@ -81,12 +99,44 @@ func mkUniverse(u int) universe {
 	}
 }
 
-func opsFor(typ string) []opDesc {
-	if typ == "gcounter" {
+func opsFor(cfg config) []opDesc {
+	if cfg.Type == "gcounter" {
+		if cfg.Ops == "big" {
+			return []opDesc{{Name: "+1", Kind: 0, Amount: 1}, {Name: "+2^30", Kind: 0, Amount: 1 << 30}, {Name: "+MaxInt32", Kind: 0, Amount: math.MaxInt32}}
+		}
 		return []opDesc{{Name: "+1", Kind: 0, Amount: 1}, {Name: "+2", Kind: 0, Amount: 2}}
 	}
-	return []opDesc{{Name: "add e0", Kind: 1, Elem: 0}, {Name: "rem e0", Kind: 2, Elem: 0},
+	ops := []opDesc{{Name: "add e0", Kind: 1, Elem: 0}, {Name: "rem e0", Kind: 2, Elem: 0},
 		{Name: "add e1", Kind: 1, Elem: 1}, {Name: "rem e1", Kind: 2, Elem: 1}}
+	if cfg.Elems == 1 {
+		ops = ops[:2]
+	}
+	return ops
+}
+
+// An operation of the implementation may fail loudly (panic, e.g. the TLA+ type error of an addition
+// that leaves the 32-bit range): that is an allowed answer wherever a silent wrong one is not.
+var loudValue = tla.MakeString("<fails loudly>")
+var loudReads, loudUpdates atomic.Int64
+
+func rd(v resources.CRDTValue) (out tla.Value) {
+	defer func() {
+		if x := recover(); x != nil {
+			loudReads.Add(1)
+			out = loudValue
+		}
+	}()
+	return v.Read()
+}
+
+func safeWrite(v resources.CRDTValue, id, op tla.Value) (out resources.CRDTValue, ok bool) {
+	defer func() {
+		if x := recover(); x != nil {
+			loudUpdates.Add(1)
+			out, ok = nil, false
+		}
+	}()
+	return v.Write(id, op), true
 }
 
 var cmdKey = tla.MakeString("cmd")
@@ -597,7 +647,7 @@ func (s *searcher) distinguish(n *node, l, r resources.CRDTValue, maxDepth int) 
 			try := func(step string, na, nb []resources.CRDTValue) (string, bool) {
 				p := append(append([]string{}, st.path...), step)
 				for i := range na {
-					ra, rb := na[i].Read(), nb[i].Read()
+					ra, rb := rd(na[i]), rd(nb[i])
 					if !ra.Equal(rb) {
 						return fmt.Sprintf("[%s] after which %s reads %v in one copy and %v in the other", strings.Join(p, " "), name(i), ra, rb), true
 					}
@@ -610,9 +660,13 @@ func (s *searcher) distinguish(n *node, l, r resources.CRDTValue, maxDepth int) 
 					na := append([]resources.CRDTValue{}, st.a...)
 					nb := append([]resources.CRDTValue{}, st.b...)
 					s.nextStampVals(st.a)
-					na[i] = st.a[i].Write(s.u.ids[i], s.u.opValue(s.ops[op]))
+					var oka, okb bool
+					na[i], oka = safeWrite(st.a[i], s.u.ids[i], s.u.opValue(s.ops[op]))
 					s.nextStampVals(st.b)
-					nb[i] = st.b[i].Write(s.u.ids[i], s.u.opValue(s.ops[op]))
+					nb[i], okb = safeWrite(st.b[i], s.u.ids[i], s.u.opValue(s.ops[op]))
+					if !oka || !okb {
+						continue
+					}
 					if w, ok := try(fmt.Sprintf("w(%s,%s)", name(i), s.ops[op].Name), na, nb); ok {
 						return w, true
 					}
@@ -727,7 +781,7 @@ func (c *chk) begin() { c.devs = c.devs[:0] }
 // deviated from the pointwise-max join.
 func (c *chk) same(law string, a, b resources.CRDTValue, descr func() string) {
 	ca, cb := canon(a), canon(b)
-	ra, rb := a.Read(), b.Read()
+	ra, rb := rd(a), rd(b)
 	if ca == cb && ra.Equal(rb) {
 		return
 	}
@@ -774,12 +828,20 @@ func (s *searcher) nextStampVals(vals []resources.CRDTValue) {
 	}
 }
 
-// write performs the local update on the real value and on the model.
+// write performs the local update on the real value and on the model.  It returns nil when the
+// update is not offered (passive replica) or fails loudly.
 func (s *searcher) write(n *node, r, op int) *node {
+	if r >= len(n.reps)-s.cfg.Passive {
+		return nil
+	}
 	s.nextStampVals(n.reps)
 	c := &node{reps: append([]resources.CRDTValue{}, n.reps...), know: append([]uint64{}, n.know...),
 		parent: n, tr: trans{T: "w", R: r, Op: op}, depth: n.depth + 1, taint: n.taint}
-	c.reps[r] = n.reps[r].Write(s.u.ids[r], s.u.opValue(s.ops[op]))
+	nv, ok := safeWrite(n.reps[r], s.u.ids[r], s.u.opValue(s.ops[op]))
+	if !ok {
+		return nil
+	}
+	c.reps[r] = nv
 	n.inheritCanon(c, r)
 	seq := 0
 	for _, e := range n.ev {
@@ -936,12 +998,16 @@ func (s *searcher) checkNode(n *node, laws bool, ws []*node) {
 	for i := 0; i < R; i++ {
 		for op := range s.ops {
 			i, op := i, op
-			var nw resources.CRDTValue
+			var wn *node
 			if ws != nil {
-				nw = ws[i*len(s.ops)+op].reps[i] // the write successor already computed for the search
+				wn = ws[i*len(s.ops)+op] // the write successor already computed for the search
 			} else {
-				nw = s.write(n, i, op).reps[i]
+				wn = s.write(n, i, op)
 			}
+			if wn == nil {
+				continue // not offered, or the update failed loudly
+			}
+			nw := wn.reps[i]
 			c.begin()
 			a := c.merge(n.reps[i], nw)
 			inflN++
@@ -973,6 +1039,9 @@ func (s *searcher) successors(n *node) []*node {
 				continue
 			}
 			for _, g := range []bool{false, true} {
+				if g && s.cfg.NoGob {
+					continue
+				}
 				c, err := s.mergeTr(n, r, f, g)
 				if err != nil {
 					continue // reported by checkNode (gob-error)
@@ -1006,7 +1075,9 @@ func (s *searcher) execPath(p []trans) (*node, error) {
 	for _, t := range p {
 		switch t.T {
 		case "w":
-			n = s.write(n, t.R, t.Op)
+			if n = s.write(n, t.R, t.Op); n == nil {
+				return nil, fmt.Errorf("update of the path is not available (fails loudly)")
+			}
 		case "m", "mg":
 			c, err := s.mergeTr(n, t.R, t.S, t.T == "mg")
 			if err != nil {
@@ -1106,7 +1177,9 @@ func (s *searcher) run(workers int, deadline time.Time) *searchResult {
 			s.checkNode(n, laws[i], sc[:len(n.reps)*len(s.ops)])
 			ks := make([]string, len(sc))
 			for j, c := range sc {
-				ks[j] = c.key(s.cfg.Type)
+				if c != nil {
+					ks[j] = c.key(s.cfg.Type)
+				}
 			}
 			exps[i] = exp{sc, ks}
 		})
@@ -1149,7 +1222,7 @@ func (s *searcher) run(workers int, deadline time.Time) *searchResult {
 			}
 			var st []string
 			for _, r := range n.reps {
-				st = append(st, show(s.cfg.Type, r)+" reads "+r.Read().String())
+				st = append(st, show(s.cfg.Type, r)+" reads "+rd(r).String())
 			}
 			res.samples = append(res.samples, map[string]any{"config": s.cfg.String(), "path": strings.Join(ps, " "), "state": st})
 		}
@@ -1238,7 +1311,7 @@ func TestCheck(t *testing.T) {
 			if err := json.Unmarshal(env.Replay, &r); err != nil {
 				t.Fatal(err)
 			}
-			s := &searcher{cfg: r.Cfg, u: mkUniverse(r.Cfg.Universe), ops: opsFor(r.Cfg.Type), col: col, lawSeen: map[string]bool{}}
+			s := &searcher{cfg: r.Cfg, u: mkUniverse(r.Cfg.Universe), ops: opsFor(r.Cfg), col: col, lawSeen: map[string]bool{}}
 			// re-execute the path from Init and run every check on every state along it
 			for k := 0; k <= len(r.Path); k++ {
 				n, err := s.execPath(r.Path[:k])
@@ -1265,7 +1338,7 @@ func TestCheck(t *testing.T) {
 		checks := map[string]int{}
 		cfgs := plan(env.Thorough())
 		for i, cfg := range cfgs {
-			s := &searcher{cfg: cfg, u: mkUniverse(cfg.Universe), ops: opsFor(cfg.Type), col: col, lawSeen: map[string]bool{}}
+			s := &searcher{cfg: cfg, u: mkUniverse(cfg.Universe), ops: opsFor(cfg), col: col, lawSeen: map[string]bool{}}
 			// share the remaining time evenly between the remaining searches
 			rem := time.Until(env.Deadline)
 			dl := time.Now().Add(rem / time.Duration(len(cfgs)-i))
